@@ -3,6 +3,8 @@ package netsim
 import (
 	"verif/netsim/codec"
 
+	"github.com/brewlin/net-protocol/pkg/rand"
+
 	tcpip "github.com/brewlin/net-protocol/protocol"
 )
 
@@ -71,4 +73,10 @@ func (p *TCPPeer) Mine(ds []*Decoded) []*codec.TCP {
 		}
 	}
 	return out
+}
+
+// placeISS queues t as the next 4-byte draw from pkg/rand, which is the
+// initial sequence number of the next active handshake.
+func placeISS(t uint32) {
+	rand.VerifNext([]byte{byte(t), byte(t >> 8), byte(t >> 16), byte(t >> 24)})
 }
